@@ -1,4 +1,5 @@
 #!/bin/bash
+ROOT=${MUT_ROOT:-/repo}; export MC_REPO=$ROOT; export MC_EVIDENCE_DIR=/tmp/mc_evidence_scratch; mkdir -p $MC_EVIDENCE_DIR
 # tools/seeds_run.sh [name-prefix]: apply each seeded/<name>/patch.diff to /repo, run the check(s) for its property
 # (name starts with the property id; extra checks in seeded/<name>/extra_checks), record the outcome in
 # seeded/<name>/result.txt, revert. /repo must be clean and no other check may be running.
@@ -6,7 +7,7 @@ cd /verif
 for d in seeded/${1}*/; do
   name=$(basename $d); id=$(echo $name | cut -c1-3)
   extra=$(cat $d/extra_checks 2>/dev/null)
-  cd /repo; git diff --quiet || { echo "/repo dirty"; exit 2; }
+  cd $ROOT; git diff --quiet || { echo "/repo dirty"; exit 2; }
   git apply /verif/$d/patch.diff || { echo "$name: patch does not apply"; cd /verif; continue; }
   cd /verif; : > $d/result.txt
   for chk in $id $extra; do
@@ -15,5 +16,5 @@ for d in seeded/${1}*/; do
     echo "$res" | grep -m3 "^VIOLATION" | cut -c1-400 >> $d/result.txt
     echo "== $name $chk rc=$rc $(echo "$res" | grep -c '^VIOLATION') violation lines"
   done
-  cd /repo; git checkout -- .; cd /verif
+  cd $ROOT; git checkout -- .; cd /verif
 done
